@@ -263,7 +263,7 @@ func (r *Run) checkFirstApplicable(P, name string) {
 	var det []string
 	nNil, nState := 0, 0
 	for _, ri := range ff.Returns() {
-		v := ri.Ret.Results[0]
+		v := core.RetOp(ri.Ret, 0)
 		if c, ok := v.(*ssa.Const); ok && c.Value == nil {
 			nNil++
 			if !core.HasFact(ri.Facts, "cmp(_ >= len($"+pname+"))") {
